@@ -271,6 +271,13 @@ func main() {
 	corpus(out, rng, thorough)
 	for i := 0; i < n; i++ {
 		for {
+			if rng.Chance(5) { // one compiled fields clause shared by unions formed at different depths
+				tc := lib.GenSharedClauseCase(rng)
+				if runPair(out, rng, fmt.Sprintf("p%d", i), tc, thorough) {
+					break
+				}
+				continue
+			}
 			tc := lib.GenTravGraph(rng)
 			sg := &lib.SelGen{R: rng, Cids: tc.AllCids(), Keys: tc.AllKeys(), MaxDepth: 1 + rng.Intn(5), BadPct: 1, BareEdgePct: 3}
 			tc.Sel = sg.Top()
